@@ -87,7 +87,7 @@ Qed.
 
 (* ---------- the invariant ---------- *)
 
-Definition nodel (w : wop) : Prop := w <> WDel.
+Lemma flag_delete_marker : cache_delete_leaves_marker = true. Proof. reflexivity. Qed.
 
 Definition reader_ok (s : sch) (starts : list (nat * N)) (i : nat) (r : rpc * list rop) : Prop :=
   match fst r with
@@ -101,55 +101,53 @@ Record Inv (s : sch) (starts : list (nat * N)) : Prop := mkInv {
   I_le : s_completed s <= s_started s;
   I_cache : forall e, s_cache s = Some e -> fresh (s_hist s) (s_completed s) e;
   I_nocache : s_cache s = None -> s_completed s = 0;
-  I_nodel : Forall nodel (s_wprog s) /\ (forall w, s_wpc s = Some w -> nodel w /\ s_store s = wcontent w);
+  I_wpc : forall w, s_wpc s = Some w -> s_store s = wcontent w;
   I_readers : forall i r, nth_error (s_readers s) i = Some r -> reader_ok s starts i r
 }.
 
-Lemma Inv_init init prog readers : Forall nodel prog -> Inv (sch_init init prog readers) [].
+Lemma Inv_init init prog readers : Inv (sch_init init prog readers) [].
 Proof.
-  intros Hp. constructor; cbn; try lia; try discriminate; auto.
+  constructor; cbn; try lia; try discriminate; auto.
   - exists []. split; reflexivity.
-  - split; [exact Hp|intros w H; discriminate].
   - intros i r H. rewrite nth_error_map in H. destruct (nth_error readers i); inversion H; subst. cbn. reflexivity.
 Qed.
 
 (* every schedule the model can run satisfies the oracle (the oracle's own bookkeeping of
    the content history and of the remaining program coincides with the model's) *)
-Theorem no_stale_after_complete_proved : forall ps s starts obs wmid,
-  Inv s starts -> sch_run s ps = Some obs -> no_stale (s_hist s) (s_wprog s) wmid starts ps obs = true.
+Theorem no_stale_marker_proved : forall ps s starts obs wmid,
+  Inv s starts -> sch_run_gen true s ps = Some obs -> no_stale (s_hist s) (s_wprog s) wmid starts ps obs = true.
 Proof.
   induction ps as [|p ps IH]; intros s starts obs wmid HI Hrun; cbn in Hrun.
   - inversion Hrun; subst. reflexivity.
-  - destruct (sch_step s p) as [[s' o]|] eqn:Es; [|discriminate].
-    destruct (sch_run s' ps) as [obs'|] eqn:Er; [|discriminate]. cbn in Hrun. inversion Hrun; subst obs. clear Hrun.
-    destruct HI as [H1 H2 H3 H4 H5 H6]. destruct H1 as (tl & Hh & Hlen). destruct H5 as [H5a H5b].
-    destruct p as [|i]; cbn [sch_step] in Es.
+  - destruct (sch_step_gen true s p) as [[s' o]|] eqn:Es; [|discriminate].
+    destruct (sch_run_gen true s' ps) as [obs'|] eqn:Er; [|discriminate]. cbn in Hrun. inversion Hrun; subst obs. clear Hrun.
+    destruct HI as [H1 H2 H3 H4 H5b H6]. destruct H1 as (tl & Hh & Hlen).
+    destruct p as [|i]; cbn [sch_step_gen] in Es.
     + (* writer *)
       destruct (s_wpc s) as [w|] eqn:Ew.
       * (* cache step *)
         inversion Es; subst s' o. clear Es. cbn [no_stale].
-        destruct (H5b w eq_refl) as [Nw Hst].
-        match type of Er with sch_run ?s' _ = _ => specialize (IH s' starts obs' false) end.
+        pose proof (H5b w eq_refl) as Hst.
+        match type of Er with sch_run_gen _ ?s' _ = _ => specialize (IH s' starts obs' false) end.
         cbn [s_hist s_wprog] in IH. apply IH; [|exact Er].
         assert (Hfr : fresh (s_hist s) (s_started s) (wcontent w)).
         { rewrite Hh, Hst. apply fresh_head. lia. }
         constructor; cbn [s_hist s_store s_cache s_wpc s_wprog s_completed s_started s_readers].
         -- exists tl. split; auto.
         -- lia.
-        -- intros e E. destruct w; try (exfalso; apply Nw; reflexivity); inversion E; subst; exact Hfr.
-        -- destruct w; try discriminate. exfalso; apply Nw; reflexivity.
-        -- split; [exact H5a|intros w' E; discriminate].
+        -- intros e E. destruct w; inversion E; subst; exact Hfr.
+        -- destruct w; discriminate.
+        -- intros w' E; discriminate.
         -- intros j r Hr. specialize (H6 j r Hr). unfold reader_ok in *. cbn [s_completed s_hist].
            destruct (fst r); auto. destruct H6 as [c [E L]]. exists c. split; auto. lia.
       * destruct (s_wprog s) as [|w rest] eqn:Ep; [discriminate|]. inversion Es; subst s' o. clear Es. cbn [no_stale].
-        inversion H5a as [|? ? Nw Hrest]; subst.
-        match type of Er with sch_run ?s' _ = _ => specialize (IH s' starts obs' true) end. cbn [s_hist s_wprog] in IH. apply IH; [|exact Er].
+        match type of Er with sch_run_gen _ ?s' _ = _ => specialize (IH s' starts obs' true) end. cbn [s_hist s_wprog] in IH. apply IH; [|exact Er].
         constructor; cbn [s_hist s_store s_cache s_wpc s_wprog s_completed s_started s_readers].
         -- exists (s_hist s). split; auto. rewrite Hh. cbn [length]. lia.
         -- lia.
         -- intros e E. apply fresh_cons. apply H3. exact E.
         -- exact H4.
-        -- split; [exact Hrest|intros w' E; inversion E; subst; auto].
+        -- intros w' E; inversion E; subst; auto.
         -- intros j r Hr. specialize (H6 j r Hr). unfold reader_ok in *. cbn [s_completed s_hist].
            destruct (fst r); auto. destruct H6 as [c [E L]]. exists c. split; auto. apply fresh_cons. exact L.
     + (* reader i *)
@@ -163,12 +161,12 @@ Proof.
       * destruct rest as [|ro rest]; [discriminate|].
         destruct (s_cache s) as [e|] eqn:Ec; inversion Es; subst s' o. clear Es.
         -- (* hit *) cbn [no_stale]. rewrite (proj2 (fresh_enough_spec _ _ _) (H3 e eq_refl)). cbn [andb].
-           match type of Er with sch_run ?s' _ = _ => specialize (IH s' starts obs' wmid) end. cbn in IH. apply IH; [|exact Er].
+           match type of Er with sch_run_gen _ ?s' _ = _ => specialize (IH s' starts obs' wmid) end. cbn in IH. apply IH; [|exact Er].
            apply Hframe. intros j r Hr. destruct (Nat.eq_dec i j) as [<-|Nij].
            ++ rewrite (nth_error_set_nth_same _ _ _ _ En) in Hr. inversion Hr; subst. exact Hi.
            ++ rewrite nth_error_set_nth_other in Hr by assumption. exact (H6 j r Hr).
         -- (* miss *) cbn [no_stale].
-           match type of Er with sch_run ?s' _ = _ => specialize (IH s' ((i, s_completed s) :: starts) obs' wmid) end. cbn in IH. apply IH; [|exact Er].
+           match type of Er with sch_run_gen _ ?s' _ = _ => specialize (IH s' ((i, s_completed s) :: starts) obs' wmid) end. cbn in IH. apply IH; [|exact Er].
            apply Hframe. intros j r Hr. destruct (Nat.eq_dec i j) as [<-|Nij].
            ++ rewrite (nth_error_set_nth_same _ _ _ _ En) in Hr. inversion Hr; subst. unfold reader_ok. cbn [fst].
               exists (s_completed s). rewrite entry_cons_same. split; [reflexivity|lia].
@@ -176,7 +174,7 @@ Proof.
               unfold reader_ok in *. rewrite entry_cons_other by assumption. exact H6.
       * (* storage read *)
         inversion Es; subst s' o. clear Es. cbn [no_stale].
-        match type of Er with sch_run ?s' _ = _ => specialize (IH s' starts obs' wmid) end. cbn in IH. apply IH; [|exact Er].
+        match type of Er with sch_run_gen _ ?s' _ = _ => specialize (IH s' starts obs' wmid) end. cbn in IH. apply IH; [|exact Er].
         apply Hframe. intros j r Hr. destruct (Nat.eq_dec i j) as [<-|Nij].
         -- rewrite (nth_error_set_nth_same _ _ _ _ En) in Hr. inversion Hr; subst. unfold reader_ok. cbn [fst].
            destruct Hi as [c [E L]]. exists c. split; auto. rewrite Hh. apply fresh_head. lia.
@@ -185,7 +183,7 @@ Proof.
         inversion Es; subst s' o. clear Es. cbn [no_stale].
         destruct Hi as [c [E L]]. fold (entry_of starts i). rewrite E.
         rewrite (proj2 (fresh_enough_spec _ _ _) L). cbn [andb].
-        match type of Er with sch_run ?s' _ = _ => specialize (IH s' (filter (fun e => negb (Nat.eqb (fst e) i)) starts) obs' wmid) end. cbn [s_hist s_wprog] in IH. apply IH; [|exact Er].
+        match type of Er with sch_run_gen _ ?s' _ = _ => specialize (IH s' (filter (fun e => negb (Nat.eqb (fst e) i)) starts) obs' wmid) end. cbn [s_hist s_wprog] in IH. apply IH; [|exact Er].
         assert (Hfill : forall c', reader_fill o0 e0 (s_cache s) = Some c' ->
                           (s_cache s = Some c') \/ (s_cache s = None /\ c' = e0)).
         { intros c' Hc. unfold reader_fill in Hc. rewrite flag_fill_guarded, flag_ttlget_guarded in Hc.
@@ -197,13 +195,18 @@ Proof.
            rewrite (H4 Hc'). eapply fresh_le; [|exact L]. lia.
         -- intros Hc. apply H4. unfold reader_fill in Hc. rewrite flag_fill_guarded, flag_ttlget_guarded in Hc.
            unfold fill_if_absent in Hc. destruct o0, e0, (s_cache s); try discriminate; reflexivity.
-        -- split; auto.
+        -- exact H5b.
         -- intros j r Hr. destruct (Nat.eq_dec i j) as [<-|Nij].
            ++ rewrite (nth_error_set_nth_same _ _ _ _ En) in Hr. inversion Hr; subst. unfold reader_ok. cbn [fst].
               apply entry_filter_same.
            ++ rewrite nth_error_set_nth_other in Hr by assumption. specialize (H6 j r Hr).
               unfold reader_ok in *. cbn [s_completed s_hist]. rewrite entry_filter_other by assumption. exact H6.
 Qed.
+
+(* the code as it is: the flag read from the source says "marker" *)
+Theorem no_stale_after_complete_proved : forall ps s starts obs wmid,
+  Inv s starts -> sch_run s ps = Some obs -> no_stale (s_hist s) (s_wprog s) wmid starts ps obs = true.
+Proof. unfold sch_run. rewrite flag_delete_marker. exact no_stale_marker_proved. Qed.
 
 (* ================= sequential transparency over the reference storage ================= *)
 From V Require Import Storage.SpecLaws.
@@ -409,17 +412,17 @@ Proof.
       (split; [|split; [reflexivity|right; reflexivity]]); auto.
     apply CI_write; assumption.
   - (* Cad *) inversion HK as [|? ? HK1 _]; subst.
-    cbn [cache_step c_under c_cache c_now spec_step fst snd dont_care]. unfold compare_and_delete.
+    cbn [cache_step c_under c_cache c_now spec_step fst snd dont_care]. rewrite flag_delete_marker. unfold compare_and_delete.
     destruct (lookup now st pk cc) as [r|] eqn:El; [destruct (lex_eqb (rval r) e)|]; cbn [fst snd];
       (split; [|split; [reflexivity|right; reflexivity]]); auto.
     destruct HCI as [Hn He' Hs Hc]. cbn [c_now c_under c_cache fst snd] in *. constructor; cbn [c_now c_under c_cache fst snd]; auto.
     + intros pk' cc' HK'. destruct (key_dec pk cc pk' cc') as [E|N].
-      * inversion E; subst. rewrite c_get_del_same by assumption. cbn. unfold lookup.
+      * inversion E; subst. rewrite c_get_set_same. cbn. unfold lookup.
         rewrite raw_del_same by assumption. reflexivity.
-      * rewrite c_get_del_other by assumption. eapply entry_ok_congr; [|apply He'; assumption].
+      * rewrite c_get_set_other by assumption. eapply entry_ok_congr; [|apply He'; assumption].
         apply raw_del_other; assumption.
     + apply del_row_sorted. exact Hs.
-    + apply sm_del_sorted. exact Hc.
+    + apply sm_put_sorted. exact Hc.
   - (* TTLGet *) inversion HK as [|? ? HK1 _]; subst. pose proof (He pk cc HK1) as Hk.
     cbn [cache_step c_under c_cache c_now spec_step fst snd dont_care].
     destruct (c_get c pk cc) as [[[ex v]|]|] eqn:Eg; cbn [entry_ok] in Hk.
